@@ -1,12 +1,21 @@
 """C06 - pipeline property judged by spec/QuillContract.tla (flag ok06) through TLC trace validation (spec/TraceQuill.tla) of
 executions of the real frontend/backend recorded by harness/h_sys; scenario family in props/sysfam.py; implementation-shaped
-exploration in spec/Quill.tla."""
-import sysfam, qsys
+exploration in spec/Quill.tla. The flush handshake under release/acquire (the backend's store to the caller's flag, the caller's
+load, the sink writes ordered before the return): spec/StopRA.tla with the memory orders extracted from the code, replayed on
+the REAL backend thread / flush_log() on a shim atomic (tools/stopmodel.py, harness/h_stop)."""
+import json, os
+import sysfam, qsys, stopmodel
 
 
 def run(ck):
+    stopmodel.run_for(ck)
+    if os.environ.get("VERIF_PART") == "model":
+        return
     sysfam.run_family(ck, "C06", 250 if ck.tier == "quick" else 3000)
 
 
 def replay(ck, path):
-    qsys.replay(path)
+    if json.loads(open(path).read())["replay"].get("harness") == "h_stop":
+        stopmodel.replay(path)
+    else:
+        qsys.replay(path)
